@@ -1,4 +1,5 @@
 import RSocketModel.Engine.Signals
+import RSocketModel.Props.C13
 /-!
 Monotonicity of engine states along steps: handler objects persist, keep their kind and stream id,
 a closed receiving direction stays closed, a resolved future stays resolved; the stream table only
@@ -8,22 +9,34 @@ namespace RSocketModel.Engine
 
 def Mono (s s' : Stream) : Prop :=
   s'.kind = s.kind ∧ s'.sid = s.sid ∧ (s.recvComplete = true → s'.recvComplete = true) ∧ (s.fut ≠ .pending → s'.fut ≠ .pending) ∧
-    (s.subscribed = true → s'.subscribed = true)
+    (s.subscribed = true → s'.subscribed = true) ∧ s'.n0 = s.n0
 
-theorem mono_refl (s : Stream) : Mono s s := ⟨rfl, rfl, id, id, id⟩
+theorem mono_refl (s : Stream) : Mono s s := ⟨rfl, rfl, id, id, id, rfl⟩
 theorem mono_trans {a b c : Stream} (h1 : Mono a b) (h2 : Mono b c) : Mono a c :=
   ⟨h2.1.trans h1.1, h2.2.1.trans h1.2.1, fun h => h2.2.2.1 (h1.2.2.1 h), fun h => h2.2.2.2.1 (h1.2.2.2.1 h),
-    fun h => h2.2.2.2.2 (h1.2.2.2.2 h)⟩
+    fun h => h2.2.2.2.2.1 (h1.2.2.2.2.1 h), h2.2.2.2.2.2.trans h1.2.2.2.2.2⟩
+
+/-- a requester of a stream or channel carries a positive initial request-n -/
+def N0ok (s : Stream) : Prop := (s.kind = .stReq ∨ s.kind = .chReq) → 0 < s.n0
+
+theorem n0ok_mono {s s' : Stream} (h : Mono s s') (hs : N0ok s) : N0ok s' := by
+  intro hk; rw [h.1] at hk; rw [h.2.2.2.2.2]; exact hs hk
 
 structure Ext (st st' : State) : Prop where
   objs : ∀ oid s, st.obj oid = some s → ∃ s', st'.obj oid = some s' ∧ Mono s s'
   table : ∀ q ∈ st'.table.map (·.2), q ∈ st.table.map (·.2) ∨ st.heap.length ≤ q
   heap : st.heap.length ≤ st'.heap.length
+  fresh : ∀ oid s', st'.obj oid = some s' → st.obj oid = none → N0ok s'
+  first : st'.first = st.first
+  curpar : st.cur < 2 ^ 31 → st'.cur % 2 = st.cur % 2
+  curlt : st.cur < 2 ^ 31 → st'.cur < 2 ^ 31
 
-theorem ext_refl (st : State) : Ext st st := ⟨fun _ s h => ⟨s, h, mono_refl s⟩, fun _ h => Or.inl h, Nat.le_refl _⟩
+theorem ext_refl (st : State) : Ext st st :=
+  ⟨fun _ s h => ⟨s, h, mono_refl s⟩, fun _ h => Or.inl h, Nat.le_refl _, fun _ _ h1 h2 => (by rw [h1] at h2; cases h2), rfl, fun _ => rfl, id⟩
 
 theorem ext_trans {a b c : State} (h1 : Ext a b) (h2 : Ext b c) : Ext a c := by
-  refine ⟨?_, ?_, Nat.le_trans h1.heap h2.heap⟩
+  refine ⟨?_, ?_, Nat.le_trans h1.heap h2.heap, ?_, h2.first.trans h1.first, fun h => (h2.curpar (h1.curlt h)).trans (h1.curpar h),
+    fun h => h2.curlt (h1.curlt h)⟩
   · intro oid s hs
     obtain ⟨s1, hs1, m1⟩ := h1.objs oid s hs
     obtain ⟨s2, hs2, m2⟩ := h2.objs oid s1 hs1
@@ -32,26 +45,37 @@ theorem ext_trans {a b c : State} (h1 : Ext a b) (h2 : Ext b c) : Ext a c := by
     rcases h2.table q hq with h | h
     · exact h1.table q h
     · exact Or.inr (Nat.le_trans h1.heap h)
+  · intro oid s' hs' hn
+    cases hb : b.obj oid with
+    | none => exact h2.fresh oid s' hs' hb
+    | some sb =>
+      obtain ⟨s2, hs2, m2⟩ := h2.objs oid sb hb
+      rw [hs'] at hs2; cases hs2
+      exact n0ok_mono m2 (h1.fresh oid sb hb hn)
 
 theorem ext_setObj (st : State) (oid : Nat) (s s' : Stream) (ho : st.obj oid = some s) (hm : Mono s s') :
     Ext st (st.setObj oid s') := by
-  refine ⟨?_, fun _ h => Or.inl h, by simp [State.setObj]⟩
-  intro j x hx
-  by_cases hj : j = oid
-  · subst hj
-    rw [ho] at hx; cases hx
-    exact ⟨s', obj_setObj_self st j s s' ho, hm⟩
-  · exact ⟨x, by rw [obj_setObj_ne st oid j s' hj]; exact hx, mono_refl x⟩
+  refine ⟨?_, fun _ h => Or.inl h, by simp [State.setObj], ?_, rfl, fun _ => rfl, id⟩
+  · intro j x hx
+    by_cases hj : j = oid
+    · subst hj
+      rw [ho] at hx; cases hx
+      exact ⟨s', obj_setObj_self st j s s' ho, hm⟩
+    · exact ⟨x, by rw [obj_setObj_ne st oid j s' hj]; exact hx, mono_refl x⟩
+  · intro j x hx hn
+    by_cases hj : j = oid
+    · subst hj; rw [ho] at hn; cases hn
+    · rw [obj_setObj_ne st oid j s' hj, hn] at hx; cases hx
 
 theorem ext_finish (st : State) (sid : Nat) : Ext st (st.finish sid) := by
-  refine ⟨fun _ s h => ⟨s, h, mono_refl s⟩, ?_, Nat.le_refl _⟩
+  refine ⟨fun _ s h => ⟨s, h, mono_refl s⟩, ?_, Nat.le_refl _, fun _ _ h1 h2 => (by rw [finish_obj, h2] at h1; cases h1), rfl, fun _ => rfl, id⟩
   intro q hq
   simp only [State.finish, List.mem_map, List.mem_filter] at hq
   obtain ⟨p, ⟨hp, _⟩, rfl⟩ := hq
   exact Or.inl (List.mem_map_of_mem hp)
 
-theorem ext_register (st : State) (s : Stream) : Ext st (st.register s).1 := by
-  refine ⟨?_, ?_, by simp [State.register]⟩
+theorem ext_register (st : State) (s : Stream) (hs : N0ok s) : Ext st (st.register s).1 := by
+  refine ⟨?_, ?_, by simp [State.register], ?_, rfl, fun _ => rfl, id⟩
   · intro oid x hx
     exact ⟨x, obj_register_old st s oid x hx, mono_refl x⟩
   · intro q hq
@@ -59,21 +83,49 @@ theorem ext_register (st : State) (s : Stream) : Ext st (st.register s).1 := by
     rcases hq with ⟨p, ⟨hp, _⟩, rfl⟩ | ⟨p, rfl, rfl⟩
     · exact Or.inl (List.mem_map_of_mem hp)
     · exact Or.inr (Nat.le_refl _)
+  · intro oid x hx hn
+    simp only [State.register, State.obj] at hx hn
+    have hge : st.heap.length ≤ oid := by
+      by_cases hlt : oid < st.heap.length
+      · rw [List.getElem?_eq_getElem hlt] at hn; cases hn
+      · omega
+    rw [List.getElem?_append_right hge] at hx
+    have : oid - st.heap.length = 0 := by
+      by_cases h0 : oid - st.heap.length = 0
+      · exact h0
+      · rw [List.getElem?_eq_none (by simp; omega)] at hx; cases hx
+    rw [this] at hx
+    simp only [List.getElem?_cons_zero, Option.some.injEq] at hx
+    rw [← hx]; exact hs
 
 theorem ext_markChannel (st : State) (oid : Nat) (s : Stream) (ho : st.obj oid = some s) (r t : Bool) :
     Ext st (markChannel st oid s r t) := by
   have h1 : Ext st (st.setObj oid { s with recvComplete := s.recvComplete || r, sentComplete := s.sentComplete || t }) :=
-    ext_setObj st oid s _ ho ⟨rfl, rfl, by simp; intro h; simp [h], id, id⟩
+    ext_setObj st oid s _ ho ⟨rfl, rfl, by simp; intro h; simp [h], id, id, rfl⟩
   simp only [markChannel]
   split
   · exact ext_trans h1 (ext_finish _ _)
   · exact h1
 
-theorem ext_field (st st' : State) (h1 : st'.heap = st.heap) (h2 : st'.table = st.table) : Ext st st' := by
-  refine ⟨?_, ?_, by rw [h1]; exact Nat.le_refl _⟩
+theorem ext_field' (st st' : State) (h1 : st'.heap = st.heap) (h2 : st'.table = st.table) (h3 : st'.first = st.first)
+    (h4 : st.cur < 2 ^ 31 → st'.cur % 2 = st.cur % 2) (h5 : st.cur < 2 ^ 31 → st'.cur < 2 ^ 31) : Ext st st' := by
+  refine ⟨?_, ?_, by rw [h1]; exact Nat.le_refl _, ?_, h3, h4, h5⟩
   · intro oid s hs
     exact ⟨s, by simp only [State.obj] at hs ⊢; rw [h1]; exact hs, mono_refl s⟩
   · intro q hq; rw [h2] at hq; exact Or.inl hq
+  · intro oid s' hs' hn
+    simp only [State.obj, h1] at hs' hn; rw [hs'] at hn; cases hn
+
+theorem ext_field (st st' : State) (h1 : st'.heap = st.heap) (h2 : st'.table = st.table)
+    (h3 : st'.first = st.first := by rfl) (h4 : st'.cur = st.cur := by rfl) : Ext st st' :=
+  ext_field' st st' h1 h2 h3 (fun _ => by rw [h4]) (by rw [h4]; exact id)
+
+syntax "n0ok" : tactic
+macro_rules
+  | `(tactic| n0ok) => `(tactic| first
+    | (simp [N0ok]; done)
+    | (simp only [N0ok]; intro _; (try simp only); (try split) <;> omega)
+    | (intro _; simp_all; omega))
 
 syntax "ext_close" : tactic
 syntax "ext_close1" : tactic
@@ -86,10 +138,15 @@ macro_rules
     | exact ext_trans (ext_setObj _ _ _ _ (by first | assumption | exact obj_register _ _) (by simp_all [Mono])) (ext_finish _ _)
     | exact ext_markChannel _ _ _ (by first | assumption | exact obj_setObj_self _ _ _ _ (by first | assumption | exact obj_register _ _) | exact obj_register _ _) _ _
     | exact ext_setObj _ _ _ _ (by first | assumption | exact obj_register _ _) (by simp_all [Mono])
-    | exact ext_register _ _
+    | exact ext_register _ _ (by n0ok)
     | exact ext_field _ _ rfl rfl)
 
-theorem ext_allocate (st : State) : Ext st (allocate st).2 := ext_field _ _ rfl rfl
+theorem ext_allocate (st : State) : Ext st (allocate st).2 := by
+  refine ext_field' _ _ rfl rfl rfl ?_ ?_
+  · intro hc
+    exact (StreamId.alloc_snd_inv 31 (by omega) st.isActive st.cur hc).2
+  · intro hc
+    exact (StreamId.alloc_snd_inv 31 (by omega) st.isActive st.cur hc).1
 
 end RSocketModel.Engine
 
@@ -123,10 +180,10 @@ theorem ext_apiStep (st : State) (ev : Ev) : Ext st (apiStep st ev).1 := by
       simp only
       refine ext_trans ha ?_
       split
-      · exact ext_trans (ext_register _ _) (ext_finish _ _)
+      · exact ext_trans (ext_register _ _ (by n0ok)) (ext_finish _ _)
       · split
-        · exact ext_trans (ext_register _ _) (ext_setObj _ _ _ _ (obj_register _ _) (by simp [Mono]))
-        · exact ext_register _ _
+        · exact ext_trans (ext_register _ _ (by n0ok)) (ext_setObj _ _ _ _ (obj_register _ _) (by simp [Mono]))
+        · exact ext_register _ _ (by n0ok)
   | requestChannel data n hasPub sub =>
     simp only [apiStep]
     have ha := ext_allocate st
@@ -138,15 +195,15 @@ theorem ext_apiStep (st : State) (ev : Ev) : Ext st (apiStep st ev).1 := by
       simp only
       refine ext_trans ha ?_
       split
-      · exact ext_trans (ext_register _ _) (ext_finish _ _)
+      · exact ext_trans (ext_register _ _ (by n0ok)) (ext_finish _ _)
       · split
         · split
-          · exact ext_trans (ext_register _ _) (ext_setObj _ _ _ _ (obj_register _ _) (by simp [Mono]))
+          · exact ext_trans (ext_register _ _ (by n0ok)) (ext_setObj _ _ _ _ (obj_register _ _) (by simp [Mono]))
           · dsimp only
-            refine ext_trans (ext_register _ _) (ext_trans (ext_setObj _ _ _ _ (obj_register _ _) ?_)
+            refine ext_trans (ext_register _ _ (by n0ok)) (ext_trans (ext_setObj _ _ _ _ (obj_register _ _) ?_)
               (ext_markChannel _ _ _ (obj_setObj_self _ _ _ _ (obj_register _ _)) _ _))
             simp [Mono]
-        · exact ext_register _ _
+        · exact ext_register _ _ (by n0ok)
   | subscribe oid =>
     simp only [apiStep]
     split
@@ -256,7 +313,7 @@ theorem ext_handleByType (st : State) (f : Frame) (b : Behaviour) : Ext st (hand
       split
       · exact ext_refl _
       · generalize hreg : st.register { kind := .chResp, sid := f.sid, hasPub := hasPub, subscribed := hasSub, setupDone := true } = r
-        have he : Ext st r.1 := by rw [← hreg]; exact ext_register st _
+        have he : Ext st r.1 := by rw [← hreg]; exact ext_register st _ (by n0ok)
         have ho : r.1.obj r.2 = some { kind := .chResp, sid := f.sid, hasPub := hasPub, subscribed := hasSub, setupDone := true } := by
           rw [← hreg]; exact obj_register st _
         rcases r with ⟨st0, oid⟩
